@@ -138,6 +138,32 @@ func wrapSwapped(payload, sig []byte) []byte {
 	return b
 }
 
+type pbField struct {
+	tag byte // 0x0a = payload, 0x12 = signature (length-delimited), anything else is raw bytes appended as is
+	v   []byte
+}
+
+// wrapFields hand-encodes a RawTreeChange from an arbitrary sequence of fields: absent, repeated,
+// reordered, empty or unknown fields — the structure-level alterations of the wrapper.
+func wrapFields(fs ...pbField) []byte {
+	b := []byte{}
+	for _, f := range fs {
+		if f.tag != 0x0a && f.tag != 0x12 {
+			b = append(b, f.v...)
+			continue
+		}
+		b = append(b, f.tag)
+		n := len(f.v)
+		for n >= 0x80 {
+			b = append(b, byte(n)|0x80)
+			n >>= 7
+		}
+		b = append(b, byte(n))
+		b = append(b, f.v...)
+	}
+	return b
+}
+
 func realCid(b []byte) string {
 	s, _ := cidutil.NewCidFromBytes(b)
 	return s
